@@ -13,14 +13,14 @@ def line(src, dst, tag, how):
 
 def programs(t):
     lines = []
-    ints = ['i8', 'i16', 'i32', 'i64', 'u8', 'u32'] if not t else ['i8', 'u8', 'i16', 'u16', 'i32', 'u32', 'i64', 'u64']
+    ints = ['i8', 'i16', 'i32', 'i64', 'u8', 'u32', 'u64'] if not t else ['i8', 'u8', 'i16', 'u16', 'i32', 'u32', 'i64', 'u64']
     floats = ['f32', 'f64', 'f80']
     for tag in TAGS:
         # floating -> integer
         for f in floats:
             for d in ints:
                 lines.append(line(f, d, tag, 'VIA_CONVERT'))
-            for d in (['i32', 'i8'] if not t else ['i8', 'i32', 'i64', 'u16']):
+            for d in (['i32', 'i8', 'u64'] if not t else ['i8', 'i32', 'i64', 'u16', 'u64']):
                 lines.append(line(f, d, tag, 'VIA_CTOR'))
             # floating -> scaled
             for (rep, e) in ([('i8', -2), ('i32', -2), ('i32', -16), ('i64', -31), ('u16', -4), ('i16', 3)] if not t else
